@@ -38,6 +38,7 @@ RULE = ('order-scrambled programs (10-60 calls) of send_headers (request / infor
 MINIMA = {'forbidden_call_refused': 100000, 'wire_frames_checked': 100000, 'wire_header_blocks_decoded': 50000,
           'judged:client-push': 1000, 'judged:client-altsvc': 1000, 'judged:server-headers-on-fresh-stream': 1000,
           'judged:server-priority': 1000, 'judged:data-before-final-headers': 1000, 'judged:end-stream-before-final-headers': 500,
+          'judged:data-before-final-headers-on-promised-stream': 300,
           'judged:headers-after-trailers-or-end': 1000, 'judged:informational-after-final': 500,
           'judged:trailers-without-end-stream': 500, 'judged:client-opens-with-non-request': 1000,
           'judged:push-on-pushed-stream': 100, 'judged:second-final-block': 500, 'judged:client-headers-on-promised-stream': 500,
@@ -191,6 +192,9 @@ def run_case(idx, rng, tier, rep):
                     return fail('C08:wire:DATA-on-never-used-stream', 'DATA on stream %d' % sid)
                 if e_client and not w['mine']:
                     return fail('C08:wire:client-sent-DATA-on-promised-stream', 'stream %d' % sid)
+                if w['phase'] == 'need_first' and w['mine']:
+                    return fail('C08:wire:DATA-before-final-headers-on-promised-stream',
+                                'DATA%s on promised stream %d before its response header block' % (' with END_STREAM' if f.end_stream else '', sid))
                 if w['phase'] == 'need_first':
                     # reported once per mechanism; the history goes on (the stream has simply not sent its headers yet)
                     fail('C08:wire:DATA-before-final-headers', 'DATA%s on stream %d before any final header block' %
@@ -456,7 +460,8 @@ def run_case(idx, rng, tier, rep):
         elif m['kind'] == 'pushed_by_P':
             forbidden = pre + '-on-promised-stream'
         elif m['phase'] == 'need_first':
-            forbidden = pre + '-before-final-headers'
+            # (on a stream E has promised the library does refuse this; on inbound streams it does not - the known finding)
+            forbidden = pre + ('-before-final-headers-on-promised-stream' if m['kind'] == 'pushed_by_E' else '-before-final-headers')
         elif m['phase'] in ('done', 'reset'):
             forbidden = pre + '-after-end'
         if end_only:
